@@ -22,6 +22,7 @@ func genOptions(t *rapid.T) *Options {
 	for _, name := range names {
 		k := rapid.IntRange(1, 3).Draw(t, "nEP")
 		o.MEs = append(o.MEs, ME{Name: name, Eps: append([]int{}, rapid.Permutation([]int{0, 1, 2, 3}).Draw(t, "eps")[:k]...),
+			Dup: rapid.SampledFrom([]int{0, 0, 0, 0, 0, 0, 0, 1, 2, 3}).Draw(t, "dup"),
 			RMs: rapid.SampledFrom([]int{0, 0, 0, 0, 1, 5}).Draw(t, "rms"), DMs: rapid.SampledFrom([]int{0, 0, 0, 0, 1, 5, 20}).Draw(t, "dms")})
 	}
 	o.Default = rapid.IntRange(0, n-1).Draw(t, "def")
